@@ -35,6 +35,76 @@ pub fn run(args: &Args) {
     let mbtns: Vec<KempstonMouseButton> = KempstonMouseButton::iter().collect();
     assert_eq!(keys.len(), 40);
 
+    if args.num("pairs", 0) > 0 {
+        // every ordered pair of controls that can interact (7 compound keys, 2x5 Sinclair controls, CAPS SHIFT,
+        // SPACE and the digits they map to) x both release orders, all eight half-rows read after each change
+        #[derive(Clone, Copy)]
+        enum Ctl {
+            K(usize),
+            C(usize),
+            S(u64, usize),
+        }
+        let mut ctl: Vec<Ctl> = (0..7).map(Ctl::C).collect();
+        ctl.extend((0..5).map(|d| Ctl::S(1, d)));
+        ctl.extend((0..5).map(|d| Ctl::S(2, d)));
+        let digits_etc: Vec<usize> = (0..40)
+            .filter(|&k| {
+                matches!(
+                    keys[k],
+                    ZXKey::Shift | ZXKey::Space | ZXKey::N0 | ZXKey::N1 | ZXKey::N2 | ZXKey::N3 | ZXKey::N4 | ZXKey::N5 | ZXKey::N6 | ZXKey::N7 | ZXKey::N8 | ZXKey::N9
+                )
+            })
+            .collect();
+        assert_eq!(digits_etc.len(), 12);
+        ctl.extend(digits_etc.into_iter().map(Ctl::K));
+        let mut emu = EmuCfg::new(false).build();
+        let mut n = 0u64;
+        for &a in &ctl {
+            for &b in &ctl {
+                for lifo in [false, true] {
+                    if n % 64 == 0 {
+                        let mut cfg = EmuCfg::new(n % 128 == 64);
+                        cfg.kempston = true;
+                        emu = cfg.build();
+                        poke_bytes(&mut emu, CODE, &[0xED, 0x78]);
+                        out.ev(json!({"ev":"reset","kempston":true,"mouse":false,"m":if n % 128 == 64 {128} else {48}}));
+                    }
+                    n += 1;
+                    let mut send = |emu: &mut Emu, c: Ctl, p: bool, out: &mut Out| match c {
+                        Ctl::K(k) => {
+                            emu.send_key(keys[k], p);
+                            out.ev(json!({"ev":"key","k":k,"p":p}));
+                        }
+                        Ctl::C(k) => {
+                            emu.send_compound_key(ckeys[k], p);
+                            out.ev(json!({"ev":"ckey","k":k,"p":p}));
+                        }
+                        Ctl::S(j, d) => {
+                            let num = if j == 1 { SinclairJoyNum::Fist } else { SinclairJoyNum::Second };
+                            emu.send_sinclair_key(num, sdirs[d], p);
+                            out.ev(json!({"ev":"sjoy","j":j,"d":d,"p":p}));
+                        }
+                    };
+                    let scan = |emu: &mut Emu, out: &mut Out| {
+                        for row in 0..8 {
+                            let p = ((!(1u16 << row) & 0xFF) << 8) | 0xFE;
+                            let v = read_port(emu, p);
+                            out.ev(json!({"ev":"rd","port":p,"val":v}));
+                        }
+                    };
+                    send(&mut emu, a, true, &mut out);
+                    send(&mut emu, b, true, &mut out);
+                    scan(&mut emu, &mut out);
+                    let (first, second) = if lifo { (b, a) } else { (a, b) };
+                    send(&mut emu, first, false, &mut out);
+                    scan(&mut emu, &mut out);
+                    send(&mut emu, second, false, &mut out);
+                    scan(&mut emu, &mut out);
+                }
+            }
+        }
+    }
+
     for h in 0..histories {
         let m128 = h % 5 == 4;
         let mouse = h % 2 == 1;
